@@ -3,6 +3,7 @@ package zzleaf
 import (
 	"bufio"
 	"bytes"
+	"fmt"
 	"io"
 
 	"github.com/pborman/uuid"
@@ -44,5 +45,6 @@ func HarnessEngineSelfTest() {
 	u := uuid.Parse("6ba7b810-9dad-11d1-80b4-00c04fd430c8")
 	verif.Assert(u != nil && u.String() == "6ba7b810-9dad-11d1-80b4-00c04fd430c8", "selftest/uuid-parse")
 	verif.Assert(uuid.Parse("6ba7b810-9dad-11d1-80b4-00c04fd430cg") == nil, "selftest/uuid-parse-rejects")
+	verif.Assert(fmt.Sprintf("%v|%+v", map[string]int{"b": 2, "a": 1}, map[int]string{2: "x", -1: "y"}) == "map[a:1 b:2]|map[-1:y 2:x]", "selftest/fmt-map-sorted")
 	verif.Reach("selftest-end")
 }
